@@ -33,6 +33,20 @@ def rule_readonly_table(ck):
                "name must be carried" % (ro,), "jsonrpclib/jsonrpc.py")
 
 
+def _own_headers(t, pname):
+    """the caller's header argument itself, or a normalisation built from it alone: `headers or {}`, dict(headers), {} for nothing"""
+    def own(a):
+        if a == ("param", pname) or a in (("other", "{}"), ("const", None)):
+            return True
+        if a[0] == "or":
+            return all(own(x) for x in a[1])
+        if a[0] == "call" and a[1] == ("global", "dict") and len(a[2]) <= 1 and not a[3]:
+            return all(own(x) for x in a[2])
+        return False
+    alts_ = prov.value_alts(t)
+    return bool(alts_) and all(own(a) for a in alts_) and any(prov.contains(a, lambda x: x == ("param", pname)) for a in alts_)
+
+
 def check(ck):
     prog = ck.prog
     # ---- C18.1 push/pop pairing -----------------------------------------------------------------
@@ -52,12 +66,22 @@ def check(ck):
     ck.require(not leaks, "C18.1", "%s: pop_headers on every exit after the push" % q.fn(fa), "normal and exceptional exits pass the pop",
                "after push_headers there is a path to %s that does not pop the pushed dictionary: when the with-block raises, its headers "
                "stay in force for all later requests" % ("the exceptional exit" if g.raise_exit.id in leaks else "a return"), q.loc(fa, push[0]))
+    terms_pp = []
+    rd_pp = prov.rd_of(g)
     for n in push + pops:
         for c in node_calls(n):
             if call_name(c) in ("push_headers", "pop_headers"):
                 t = prov.origin(g, n, c.args[0]) if c.args else None
-                ck.require(t == ("param", "headers"), "C18.1", "%s: %s(headers)" % (q.fn(fa), call_name(c)), "the caller's dictionary",
+                # the same *object*: one variable with one reaching definition at both calls (an expression such as `headers or {}`
+                # evaluated once for the push and once for the pop makes two dictionaries when the argument is empty)
+                a0_ = c.args[0] if c.args else None
+                terms_pp.append((t, a0_.id, tuple(sorted(rd_pp.get(n.id, {}).get(a0_.id, ())))) if isinstance(a0_, ast.Name) else (t, id(c)))
+                ck.require(t is not None and _own_headers(t, "headers"), "C18.1", "%s: %s(headers)" % (q.fn(fa), call_name(c)), "the caller's dictionary",
                            "%s is applied to %s" % (call_name(c), prov.show(t) if t else "nothing"), q.loc(fa, n))
+    # what is popped is what was pushed (the same value, however the caller's argument was normalised before)
+    ck.require(len(set(terms_pp)) == 1, "C18.1", "%s: the pop names the pushed dictionary" % q.fn(fa), "same value",
+               "push_headers and pop_headers are not applied to the same object (%s): an argument expression evaluated once per call gives "
+               "two dictionaries" % [prov.show(t_[0])[:40] if t_[0] else None for t_ in terms_pp], q.loc(fa, fa.node))
     ck.require(dump(ys[0].ast.value.value) == "self", "C18.1", "%s: yields the proxy" % q.fn(fa), "yield self", "the block does not yield the proxy", q.loc(fa, ys[0]))
 
     # ---- C18.2 - C18.4 composition truth table ------------------------------------------------------------
@@ -315,7 +339,10 @@ def check(ck):
                    q.loc(fm, fm.node))
     finit = prog.func("jsonrpc", "ServerProxy.__init__")
     pc = [c for c in ast.walk(finit.node) if isinstance(c, ast.Call) and call_name(c) == "push_headers"]
-    ck.require(len(pc) == 1 and dump(pc[0].args[0]) in ("headers or {}", "headers"), "C18.5", "%s: constructor headers pushed once" % q.fn(finit),
+    gi_ = cfg_of(finit)
+    pcn = [(n_, c_) for n_ in gi_.live_nodes() for c_ in node_calls(n_) if call_name(c_) == "push_headers"]
+    ck.require(len(pc) == 1 and len(pcn) == 1 and bool(pcn[0][1].args) and _own_headers(prov.origin(gi_, pcn[0][0], pcn[0][1].args[0]), "headers"),
+               "C18.5", "%s: constructor headers pushed once" % q.fn(finit),
                "one push_headers(headers or {})", "the constructor pushes its headers %d times" % len(pc), q.loc(finit, finit.node))
     ftm = prog.func("jsonrpc", "TransportMixIn.__init__")
     ok_init = any(isinstance(st_, ast.Assign) and dump(st_.targets[0]) == "self.additional_headers" and dump(st_.value) == "[]" for st_ in ast.walk(ftm.node))
